@@ -71,6 +71,14 @@ Before finishing: verify demo.py exits 0 with the change reverted (use `git -C {
 no new failure with the change. Leave the change applied in the worktree when you finish. Your final message: a two-line summary only.
 """
     if KEEP:
+        prev = []
+        for mf in sorted(glob.glob("/verif/keep/%s_k*.meta.json" % p)):
+            try:
+                for ch in json.load(open(mf)).get("changes", []):
+                    prev.append("- " + (ch.get("summary") or "")[:300].replace("\n", " "))
+            except Exception:
+                pass
+        prev_txt = ("\nEarlier contributors already handed in the following changes for this property - do something DIFFERENT in kind and place:\n" + "\n".join(prev) + "\n") if prev else ""
         txt = f"""You are a contributor to the open-source project enjoy-digital/litedram (a Migen/Python generator of a DRAM controller). A scratch git worktree of it is at
 {wt} (work ONLY there; never touch /repo or /verif, do not read anything under /verif). Python with all dependencies: /venv/bin/python
 (run tests from the worktree root, e.g. `cd {wt} && /venv/bin/python -m pytest -q -p no:cacheprovider test/test_bankmachine.py`; pytest-xdist is
@@ -93,7 +101,7 @@ For each change k = 1, 2, 3 (each one separately, against the unmodified tree):
     still holds with the change (randomised traffic / exhaustive small configurations / comparison against the unmodified behaviour), exits 0 with the change
     applied. If you cannot convince yourself that the property still holds, drop that change and write another one.
 Do not edit anything under test/.
-
+{prev_txt}
 DELIVERABLES, all in {out}/ :
   keep_1.diff, keep_2.diff, keep_3.diff   each a `git diff` against the UNMODIFIED tree (must apply alone with `git apply`)
   keep_1.py, keep_2.py, keep_3.py         the check scripts (add os.getcwd() to sys.path; they are run from the root of a tree with the diff applied)
